@@ -2,7 +2,7 @@
 (* Trace validation: every event of every recorded execution of the real   *)
 (* topsim must be a step of the specification (L2), and every property     *)
 (* predicate must hold in / between the logged states (L1, module Props).  *)
-EXTENDS TraceConv, Props, TLCExt
+EXTENDS TraceConv, Props, ClusterAPI, TLCExt
 
 TData == JsonDeserialize(IOEnv.TRACE_FILE)
 NT == Len(TData.traces)
@@ -47,17 +47,35 @@ ProposalOK(A, i, rec) ==
                  LoggedProp(rec) \in Proposals(ApplyProv(P, o, pv), o, rem, pv, P.procs[pid])
        ELSE TRUE
 
+(* external calls of the Cluster API driver (spec/ClusterAPI.tla) *)
+CallOutcomes(A, c) ==
+    CASE c.op = "Tick" -> {Out(A, "")}
+      [] c.op = "ProvBatch" -> ProvBatchOutcomes(A, c.size, c.o)
+      [] c.op = "Release" -> ReleaseOutcomes(A, c.o)
+      [] c.op = "ProvIngest" -> SpawnPIOutcomes(A, c.o)
+      [] c.op = "Alloc" -> SpawnTPOutcomes(A, <<c.o, c.k>>, c.m)
+      [] OTHER -> {}
 StepOK(A, B, rec) ==
-    IF rec.lab.kind = "STOP"
-    THEN \E i \in 1..Len(A.queue) : A.queue[i].pid[1] = "STOP" /\ MatchS(Pop(A, i), B)
+    IF rec.lab.kind = "CALL"
+    THEN \E x \in CallOutcomes([A EXCEPT !.crashed = ""], rec.call) : x.raised = rec.callexc /\ MatchS(x.st, B)
+    ELSE IF rec.lab.kind = "STOP"
+    THEN /\ B.now >= A.now
+         /\ \A i \in 1..Len(A.queue) : A.queue[i].pid[1] = "STOP" \/ A.queue[i].t >= B.now
+         /\ MatchS([A EXCEPT !.now = B.now], B)
     ELSE IF rec.lab.kind = "END"
-    THEN A.queue # <<>> /\ A.queue[1].pid[1] = "CRASH"
-         /\ MatchS([Pop(A, 1) EXCEPT !.crashed = A.queue[1].pid[2]], B)
+    THEN A.queue # <<>> /\ NoStop(A.queue)[1].pid[1] = "CRASH"
+         /\ \E i \in 1..Len(A.queue) : A.queue[i].pid[1] = "CRASH"
+                /\ MatchS([Pop(A, i) EXCEPT !.crashed = A.queue[i].pid[2]], B)
     ELSE \E i \in CandT(A, rec) : \E T \in SuccsT(A, i, rec) : MatchS(T, B)
 
 (* diagnosis: fields in which the best candidate differs *)
 Diff(A, B, rec) ==
-    IF rec.lab.kind \in {"STOP", "END"} \/ CandT(A, rec) = {} THEN {"no-candidate"}
+    IF rec.lab.kind = "CALL"
+    THEN (IF CallOutcomes(A, rec.call) = {} THEN {"no-outcome"}
+          ELSE LET x == CHOOSE x \in CallOutcomes(A, rec.call) : TRUE
+               IN {f \in DOMAIN Norm(B) : Norm(x.st)[f] # Norm(B)[f]} \cup (IF x.raised # rec.callexc THEN {"raised"} ELSE {}))
+    ELSE IF rec.lab.kind = "STOP" THEN {f \in DOMAIN Norm(B) : Norm([A EXCEPT !.now = B.now])[f] # Norm(B)[f]}
+    ELSE IF rec.lab.kind \in {"END"} \/ CandT(A, rec) = {} THEN {"no-candidate"}
     ELSE LET i == CHOOSE i \in CandT(A, rec) : TRUE
              Ts == SuccsT(A, i, rec)
          IN IF Ts = {} THEN {"no-successor"}
@@ -83,9 +101,9 @@ Report(ok, tag, i, what) == IF ok THEN TRUE ELSE PrintT(<<tag, tid, i, what>>)
 EndChecks(tr, i) ==
     LET e == tr.end
         X == Abs(e.st)
-    IN /\ Report(cfg.alg = "adv" \/ (e.exc.type = "" /\ ~e.budget), "L1", i, "C05.completes")
+    IN /\ Report(cfg.alg = "adv" \/ tr.cfg.api \/ (e.exc.type = "" /\ ~e.budget), "L1", i, "C05.completes")
        /\ Report(cfg.alg = "adv" \/ e.budget \/ e.t <= SerialBound * K, "L1", i, "C05.bound")
-       /\ IF e.completed /\ e.exc.type = "" /\ Len(tr.segs) = 0
+       /\ IF e.completed /\ e.exc.type = "" /\ Len(tr.segs) = 0 /\ ~tr.cfg.api
           THEN /\ Report(End_C02(X), "L1", i, "C02.end")
                /\ Report(End_C04(X), "L1", i, "C04.end")
                /\ Report(Len(e.tasktable) = Card(DOMAIN X.tasks)
@@ -108,7 +126,7 @@ TInit == /\ tid \in 1..NT
          /\ bos = absS
 
 Exact(A, rec) ==
-    rec.lab.kind \in {"STOP", "END"}
+    rec.lab.kind \in {"STOP", "END", "CALL"}
     \/ (NoStop(A.queue) # <<>> /\ NoStop(A.queue)[1].pid = LabPid(rec))
 
 TNext == /\ l < Len(Steps(tid))
@@ -125,12 +143,13 @@ TNext == /\ l < Len(Steps(tid))
                /\ \A n \in RangeOf(InvNames) : Report(InvHolds(B, n), "L1", l + 1, n)
                /\ \A n \in RangeOf(TrNames) : Report(TrHolds(A, B, n), "L1", l + 1, n)
                /\ Report(Truth_C19(B, cur2.q), "L1", l + 1, "C19.truth")
+               /\ Report((rec.raised = "" /\ rec.callexc = "") \/ B.cl = A.cl, "L1", l + 1, "C02.refused")
                /\ bos' = IF Boundary(A, B) THEN A ELSE bos
                /\ Report(Len(rec.rows) = 0 \/ (Len(rec.rows) = 1 /\ RowOK(IF Boundary(A, B) \/ l = 1 THEN A ELSE bos, rec.rows[1])), "L1", l + 1, "C12.row")
                /\ Report(NoLoss(em2, lg2, B), "L1", l + 1, "C13.noloss")
                /\ Report(NoDup(em2, lg2), "L1", l + 1, "C13.nodup")
                /\ IF l + 1 = Len(Steps(tid)) THEN EndChecks(TData.traces[tid], l + 1) ELSE TRUE
-               /\ IF l = 1 /\ ~MatchS(StartState, A)
+               /\ IF l = 1 /\ ~TData.traces[tid].cfg.api /\ ~MatchS(StartState, A)
                   THEN PrintT(<<"DRIFT", tid, 1, "INIT", {f \in DOMAIN Norm(A) : Norm(A)[f] # Norm(StartState)[f]}>>)
                   ELSE TRUE
                /\ IF StepOK(A, B, rec) /\ StatusOK(A, B) THEN TRUE
